@@ -215,6 +215,22 @@ func (l *SignedLog) LookupResponse(id, size int) []byte {
 	return append(msg, l.Head(size, "real", "")...)
 }
 
+// ServeCompacting is an honest server that, like a static file tree maintained with tlog.NewTiles
+// and periodic clean-up, no longer has a partial tile once the corresponding full tile exists.
+// (The client is documented to fall back to the full tile in that case.)
+func (l *SignedLog) ServeCompacting(rpath string, size int) ([]byte, error) {
+	if strings.HasPrefix(rpath, "/tile/") {
+		if t, err := tlog.ParseTilePath(rpath[1:]); err == nil && t.L >= 0 && t.W < 1<<uint(t.H) {
+			full := t
+			full.W = 1 << uint(t.H)
+			if _, ok := TrueTile(l.Log, size, full); ok {
+				return nil, os.ErrNotExist
+			}
+		}
+	}
+	return l.Serve(rpath, size)
+}
+
 // Serve answers a remote path the way an honest server holding the first size records does.
 func (l *SignedLog) Serve(rpath string, size int) ([]byte, error) {
 	switch {
